@@ -49,6 +49,47 @@ Theorem C08_never_completed_ends_tunnel : forall c st,
 Proof. reflexivity. Qed.
 Print Assumptions C08_never_completed_ends_tunnel.
 
+(** Bytes that cannot be framed end the tunnel after at most one more read: when the first read of a
+    call yields no packet and the bytes collected after the second read still yield none (a length
+    field below the header size whose header arrived in two pieces, a packet still incomplete, a
+    header still short), [Process] returns with an error at that second read, whatever follows on
+    the transport and whatever the environment answers. *)
+Theorem C08_unframeable_ends_within_two_reads : forall c st a b x y rest,
+  fs st = Fresh ->
+  (forall ty size body, read_header a <> HOk ty size body) ->
+  (forall ty size body, read_header (firstn (N.to_nat READMSG_BUF) a ++ b) <> HOk ty size body) ->
+  exists e, run_from c st (RData a x :: RData b y :: rest) = [End e] /\
+            (e = EndMalformed \/ e = EndFrameErr) /\
+            (consumed_from c st (RData a x :: RData b y :: rest) <= 2)%nat.
+Proof.
+  intros c st a b x y rest Hf Ha Hb.
+  assert (Hsecond : forall buf, buf = firstn (N.to_nat READMSG_BUF) a ->
+            fstep (Frag buf) b = FError).
+  { intros buf ->. cbn [fstep].
+    destruct (read_header (firstn (N.to_nat READMSG_BUF) a ++ b)) as [|ty' size'|ty' size'|ty' size' body'] eqn:Eb;
+      try reflexivity.
+    exfalso; eapply Hb; reflexivity. }
+  cbn [run_from consumed_from]. unfold tstep at 1 3. rewrite Hf. cbn [fstep].
+  destruct (read_header a) as [|ty size|ty size|ty size body] eqn:Ea.
+  - cbn [run_from consumed_from]. unfold tstep. cbn [fs].
+    rewrite (Hsecond _ eq_refl). exists EndFrameErr. cbn. repeat split; auto.
+  - cbn [run_from consumed_from]. unfold tstep. cbn [fs].
+    rewrite (Hsecond _ eq_refl). exists EndFrameErr. cbn. repeat split; auto.
+  - exists EndMalformed. cbn. repeat split; auto.
+  - exfalso; eapply Ha; reflexivity.
+Qed.
+Print Assumptions C08_unframeable_ends_within_two_reads.
+
+(** Non-vacuity: a DATA header announcing 4 bytes, delivered as 6 + 2 bytes, with a well-formed
+    packet following on the transport that is never looked at. *)
+Example C08_example_split_bad_header :
+  let bad := le16 PKT_TYPE_DATA ++ le16 0 ++ le32 4 in
+  let a0 := {| a_cookie := true; a_name := true; a_host := true; a_dial := true |} in
+  run (wired false false {| rf_clipboard := false; rf_port := false; rf_drive := false; rf_printer := false;
+                            rf_pnp := false; rf_disable_all := false; rf_enable_all := false |} 0%Z)
+      [RData (firstn 6 bad) a0; RData (skipn 6 bad) a0; RData (create_packet PKT_TYPE_KEEPALIVE []) a0] = [End EndFrameErr].
+Proof. vm_compute. reflexivity. Qed.
+
 (** Departures of the pinned code from the full statement (recorded findings). *)
 Definition w_p1 : N * bytes := (PKT_TYPE_KEEPALIVE, []).
 Definition w_p2 : N * bytes := (PKT_TYPE_DATA, [x01; x00; xaa]).
